@@ -139,6 +139,17 @@ HIERARCHIES = {
                   L("EV", "ecu-variant", ["P1"])],
     **{f"can-fd-dl{n}": [L("P1", "protocol", [], D("CP_CANFDBaudrate"), D(TABLE), D(FDLEN, fd=f"CANFD, TX_DL={n}")),
                          L("EV", "ecu-variant", ["P1"])] for n in (8, 16, 20, 24, 32, 48, 64, 100)},
+    # every parameter defined for each of two protocols (different contents): an accessor that is
+    # asked for a protocol must return that protocol's definition, whichever comes first
+    "all-for-two-protocols": [
+        L("P1", "protocol", [], *[D(n, "P1") for n in SIMPLE], D(TABLE, "P1")),
+        L("P2", "protocol", [], *[D(n, "P2") for n in SIMPLE], D(TABLE, "P2")),
+        L("BV", "base-variant", ["P1", "P2"]), L("EV", "ecu-variant", ["BV"])],
+    "all-for-two-protocols-in-variant": [
+        L("P1", "protocol", []), L("P2", "protocol", []),
+        L("BV", "base-variant", ["P1", "P2"],
+          *[D(n, q) for n in SIMPLE for q in ("P2", "P1")], D(TABLE, "P2"), D(TABLE, "P1")),
+        L("EV", "ecu-variant", ["BV"])],
     "no-can": [L("P1", "protocol", [], D("CP_DoIPLogicalGatewayAddress"), D("CP_TesterPresentTime")),
                L("EV", "ecu-variant", ["P1"])],
 }
@@ -233,14 +244,20 @@ def build_none(cfg):
     return {}
 
 
+_PAD = [0]
+
+
 def _text(sx, n):
+    """the decimal text of a content; cfg["pad"] leading zeros ("0057": ODX ids and addresses are
+    often written zero-padded) - the number a reader gets from it is the same"""
     from symx import strings
-    return strings.SymText("dec", n) if sx.sym else str(n)
+    return strings.SymText("dec", n, pad=_PAD[0]) if sx.sym else "0" * _PAD[0] + str(n)
 
 
 def run_resolve(sx, cfg, env):
     from catalogue import hier as H
     hier = hierarchy(cfg["hier"])
+    _PAD[0] = cfg.get("pad", 0)
     # symbolic contents: one number per definition (and per sub-value), one per default
     defaults = {n: sx.int(f"default.{n}", 0, (1 << 32) - 1) for n in SIMPLE}
     subdefaults = {n: sx.int(f"default.{TABLE}.{n}", 0, (1 << 32) - 1) for n in SUBS}
@@ -292,8 +309,16 @@ def run_resolve(sx, cfg, env):
                 entry["xml"] = (f'<COMPARAM-REF ID-REF="{entry.get("spec_id", "cps." + d["cp"])}">'
                                 f'{body}{pr}</COMPARAM-REF>')
             cps.append(entry)
-        layers.append({"name": layer["name"], "type": layer["type"], "parents": layer["parents"],
-                       "comparams": cps})
+        ls = {"name": layer["name"], "type": layer["type"], "parents": layer["parents"],
+              "comparams": cps}
+        if cfg.get("edited"):
+            # before the edit: the same definitions with other (concrete) contents, the last one of
+            # each layer not yet present
+            ls["first_comparams"] = [
+                dict(c, value=(["1"] * len(c["value"]) if isinstance(c["value"], list) else "1"))
+                for c in cps[:-1] if not c.get("xml") and c["value"] != "" and
+                not (isinstance(c["value"], str) and "TX_DL" in c["value"])]
+        layers.append(ls)
     specs = [{"name": n, "default": _text(sx, defaults[n])} for n in SIMPLE] + \
         [{"name": FDLEN, "default": "TX_DL=8"},
          {"name": TABLE, "sub": [(n, _text(sx, subdefaults[n])) for n in SUBS]},
@@ -304,7 +329,7 @@ def run_resolve(sx, cfg, env):
                  [(n, 90000 + j) for j, n in enumerate(XSUBS)]}]
     with warnings.catch_warnings():
         warnings.simplefilter("ignore")
-        h = H.build_hierarchy({"specs": specs, "layers": layers})
+        h = H.build_hierarchy({"specs": specs, "layers": layers, "edited": cfg.get("edited", False)})
         layer = h["layers"][cfg["layer"]]
         inst = h["instances"]
         proto = cfg["protocol"]
@@ -424,6 +449,12 @@ def configs(tier, seed):
             for pr in protos:
                 out.append({"id": f"resolve/{name}/{layer['name']}/{pr or 'any'}", "harness": "resolve",
                             "hier": name, "layer": layer["name"], "protocol": pr, "build": {}})
+                out.append({"id": f"resolve/{name}/{layer['name']}/{pr or 'any'}/edited-and-refreshed",
+                            "harness": "resolve", "hier": name, "layer": layer["name"],
+                            "protocol": pr, "edited": True, "build": {}})
+                out.append({"id": f"resolve/{name}/{layer['name']}/{pr or 'any'}/zero-padded",
+                            "harness": "resolve", "hier": name, "layer": layer["name"],
+                            "protocol": pr, "pad": 2, "build": {}})
     return out
 
 
@@ -436,7 +467,8 @@ BOUNDS = {"quick": f"all placements of three parameters (see thorough) + {len(HI
                       "quick: for one simple, one complex and one time parameter; thorough: for all ten), "
                       "queried from the base and the ECU variant for no protocol and each protocol"}
 ASSUMPTIONS = [
-    "contents are non-negative decimal numerals below 2^32 (what ODX stores for ids, rates, addresses, times)",
+    "contents are non-negative decimal numerals below 2^32 (what ODX stores for ids, rates, addresses, times), "
+    "canonical or (hand-written hierarchies) with two leading zeros",
     "of two direct parents the one of the more specific layer type (protocol < functional group < base "
     "variant) is the closer one; the same parameter and protocol in two parents of the SAME type is outside "
     "the catalogue",
